@@ -331,8 +331,12 @@ func init() {
 
 // evalArgs: every flag is given explicitly (the command keeps its flag variables between in-process runs)
 func evalArgs(dir, srcPod, srcNs, dstPod, dstNs, srcIP, dstIP, port, proto string) []string {
+	return evalArgsFail(dir, srcPod, srcNs, dstPod, dstNs, srcIP, dstIP, port, proto, false)
+}
+
+func evalArgsFail(dir, srcPod, srcNs, dstPod, dstNs, srcIP, dstIP, port, proto string, fail bool) []string {
 	return []string{"eval", "--dirpath", dir, "-s", srcPod, "-n", srcNs, "-d", dstPod, "--destination-namespace", dstNs,
-		"--source-ip", srcIP, "--destination-ip", dstIP, "-p", port, "--protocol", proto, "-q", "--fail=false"}
+		"--source-ip", srcIP, "--destination-ip", dstIP, "-p", port, "--protocol", proto, "-q", fmt.Sprintf("--fail=%v", fail)}
 }
 
 // panicSite: the innermost frame of the stack that lies in netpol-analyzer's own packages
